@@ -5,6 +5,8 @@ import (
 	"go/ast"
 	"go/token"
 	"go/types"
+	"sort"
+	"strings"
 
 	"golang.org/x/tools/go/cfg"
 )
@@ -246,57 +248,125 @@ func ruleBuildCleanup(w *World, r *Report, rule string) {
 // the loop).
 func ruleFanOut(w *World, r *Report, rule string) {
 	ro := resolveRoles(w)
-	fi := ro.createInstance
-	r.Analysed(fi)
-	info := fi.Pkg.TypesInfo
+	r.Analysed(ro.createInstance)
+	helpers := w.HelperClosure(map[*FuncInfo]string{ro.createInstance: "createInstance"})
 	n := 0
-	ast.Inspect(fi.Decl.Body, func(x ast.Node) bool {
-		rs, ok := x.(*ast.RangeStmt)
-		if !ok {
-			return true
+	var fis []*FuncInfo
+	for fi := range helpers {
+		fis = append(fis, fi)
+	}
+	sort.Slice(fis, func(i, j int) bool { return fis[i].Decl.Pos() < fis[j].Decl.Pos() })
+	for _, fi := range fis {
+		if fi == ro.setInstance || fi == ro.setSingleton {
+			continue
 		}
-		var set *ast.CallExpr
-		for _, c := range callsIn(rs.Body, false) {
-			if callee(info, c) == ro.setInstance.Obj {
-				set = c
+		info := fi.Pkg.TypesInfo
+		ast.Inspect(fi.Decl.Body, func(x ast.Node) bool {
+			rs, ok := x.(*ast.RangeStmt)
+			if !ok {
+				return true
 			}
-		}
-		if set == nil {
-			return true
-		}
-		n++
-		fam := "outputs of " + exprStr(rs.X)
-		i := 0
-		inspectNoLit(rs.Body, func(m ast.Node) bool {
-			switch b := m.(type) {
-			case *ast.ReturnStmt:
-				i++
-				what := "return"
-				if len(b.Results) > 0 {
-					last := unparen(b.Results[len(b.Results)-1])
-					if l := litOf(last); l != nil {
-						what = "return:" + exprStr(l.Type)
-					} else {
-						what = "return:" + exprStr(last)
+			var set *ast.CallExpr
+			for _, c := range callsIn(rs.Body, false) {
+				if callee(info, c) == ro.setInstance.Obj {
+					set = c
+				}
+			}
+			if set == nil {
+				return true
+			}
+			n++
+			r.Analysed(fi)
+			fam := "outputs in " + exprStr(rs.X)
+			bad := 0
+			inspectNoLit(rs.Body, func(m ast.Node) bool {
+				switch b := m.(type) {
+				case *ast.ReturnStmt:
+					bad++
+					what := "return"
+					if len(b.Results) > 0 {
+						last := unparen(b.Results[len(b.Results)-1])
+						if l := litOf(last); l != nil {
+							what = "return:" + exprStr(l.Type)
+						} else {
+							what = "return:" + exprStr(last)
+						}
+					}
+					con := fmt.Sprintf("%s#fan-out(%s)/%s", fi.Name(), exprStr(rs.X), what)
+					r.Fail(rule, con, b.Pos(), "return inside the loop that hands the %s to setInstance: the outputs not yet visited are never tracked or closed, while earlier ones are already cached", fam)
+				case *ast.BranchStmt:
+					if b.Tok == token.BREAK || b.Tok == token.GOTO || (b.Tok == token.CONTINUE && b.Pos() < set.Pos()) {
+						bad++
+						con := fmt.Sprintf("%s#fan-out(%s)/%s", fi.Name(), exprStr(rs.X), b.Tok)
+						r.Fail(rule, con, b.Pos(), "%s inside the fan-out loop strands outputs", b.Tok)
 					}
 				}
-				con := fmt.Sprintf("%s#fan-out(%s)/%s", fi.Name(), exprStr(rs.X), what)
-				r.Fail(rule, con, b.Pos(), "return inside the fan-out loop over the %s: the outputs not yet visited are never handed to setInstance, so disposable ones are neither tracked nor closed, while earlier ones are already cached", fam)
-			case *ast.BranchStmt:
-				if b.Tok == token.BREAK || b.Tok == token.GOTO {
-					i++
-					con := fmt.Sprintf("%s#fan-out(%s)/exit%d", fi.Name(), exprStr(rs.X), i)
-					r.Fail(rule, con, b.Pos(), "%s inside the fan-out loop strands the remaining outputs", b.Tok)
+				return true
+			})
+			// the call must not be conditional
+			for _, st := range rs.Body.List {
+				if ifs, ok := st.(*ast.IfStmt); ok {
+					for _, c := range callsIn(ifs.Body, false) {
+						if c == set {
+							bad++
+							r.Fail(rule, fmt.Sprintf("%s#fan-out(%s)/conditional", fi.Name(), exprStr(rs.X)), ifs.Pos(), "setInstance is only called when %s holds: some outputs of the constructor call are never stored or tracked", exprStr(ifs.Cond))
+						}
+					}
 				}
+			}
+			if bad == 0 {
+				r.OK(rule, fmt.Sprintf("%s#fan-out(%s)", fi.Name(), exprStr(rs.X)), rs.Pos(), true, "the loop hands every one of the %s to setInstance (no exit, no skip)", fam)
 			}
 			return true
 		})
-		r.OK(rule, fmt.Sprintf("%s#fan-out(%s)", fi.Name(), exprStr(rs.X)), rs.Pos(), true, "fan-out loop hands every %s to setInstance", fam)
+	}
+	if n < 1 {
+		r.Fail(rule, ro.createInstance.Name()+"#fan-out", ro.createInstance.Decl.Pos(), "no loop handing the outputs of a multi-output constructor to setInstance was found")
+	}
+	// both multi-output families of createInstance reach such a loop
+	fi := ro.createInstance
+	info := fi.Pkg.TypesInfo
+	storing := storingFuncs(w, ro)
+	fams := 0
+	ast.Inspect(fi.Decl.Body, func(x ast.Node) bool {
+		ifs, ok := x.(*ast.IfStmt)
+		if !ok {
+			return true
+		}
+		cond := exprStr(ifs.Cond)
+		if !(strings.Contains(cond, "IsResultObject") || strings.Contains(cond, "MultiReturnIndex")) {
+			return true
+		}
+		fams++
+		reaches := false
+		for _, c := range callsIn(ifs.Body, false) {
+			if cal := callee(info, c); cal != nil && storing[cal] {
+				reaches = true
+			}
+		}
+		r.Check(reaches, rule, fi.Name()+"#family:"+cond, ifs.Pos(), true,
+			"the outputs of this constructor form are handed to setInstance", "the branch for "+cond+" never stores its outputs")
 		return true
 	})
-	if n < 2 {
-		r.Fail(rule, fi.Name()+"#fan-out", fi.Decl.Pos(), "expected the result-object and multi-return fan-out loops in %s, found %d", fi.Name(), n)
+	if fams < 2 {
+		r.Fail(rule, fi.Name()+"#families", fi.Decl.Pos(), "expected the result-object and multi-return branches in %s, found %d", fi.Name(), fams)
 	}
+}
+
+// storingFuncs: setInstance and the private helpers of createInstance that call it.
+func storingFuncs(w *World, ro *roles) map[*types.Func]bool {
+	out := map[*types.Func]bool{ro.setInstance.Obj: true}
+	for fi := range w.HelperClosure(map[*FuncInfo]string{ro.createInstance: "createInstance"}) {
+		if fi == ro.createInstance {
+			continue
+		}
+		for _, c := range callsIn(fi.Decl.Body, true) {
+			if callee(fi.Pkg.TypesInfo, c) == ro.setInstance.Obj {
+				out[fi.Obj] = true
+			}
+		}
+	}
+	return out
 }
 
 // ruleCreateStores: R02.3 - every success exit of createInstance has passed setInstance.
@@ -319,10 +389,11 @@ func ruleCreateStores(w *World, r *Report, rule string) {
 		}
 		return true
 	})
+	storing := storingFuncs(w, ro)
 	sol := fl.Solve(Spec{Must: true,
 		Node: func(n ast.Node, in Facts) (gen, kill []string) {
 			for _, c := range callsIn(n, false) {
-				if callee(info, c) == ro.setInstance.Obj {
+				if cal := callee(info, c); cal != nil && storing[cal] {
 					gen = append(gen, "stored")
 				}
 			}
